@@ -15,7 +15,7 @@ out = {}
 for mid in ids:
     d = os.path.join(src, mid)
     res = {}
-    sh("git checkout -q -- . && git clean -fdq")
+    sh("git reset -q --hard && git clean -fdq")
     demo = open(os.path.join(d, "demo_test.go")).read()
     pkgdir = "."
     m = __import__("re").search(r"^package (\w+)", demo, __import__("re").M)
@@ -45,6 +45,6 @@ for mid in ids:
     res["confirmed"] = all(res.get(k) for k in ("demo_clean_passes", "applies", "builds", "demo_patched_fails", "suite_passes"))
     out[mid] = res
     print(mid, res, flush=True)
-sh("git checkout -q -- . && git clean -fdq")
+sh("git reset -q --hard && git clean -fdq")
 subprocess.run("git -C /repo worktree remove --force %s" % wt, shell=True)
 json.dump(out, open(os.path.join(src, "confirm.json"), "w"), indent=1)
